@@ -25,6 +25,7 @@ def crit(line):
 # so a differing verdict of the real function on a concrete input is a concrete failing input.
 EXACT_STREAM_KINDS = {
     "C04": {"merkle.verify"},
+    "C03": {"merkle.verify"},   # "hashes into the Merkle root at the claimed position" (C04_exact) is a clause of C03
 }
 
 
@@ -517,6 +518,8 @@ def mon_app(pid, run):
             if kind.startswith("tx.") and kind not in ("tx.ethblock", "tx.generic") and c == "ok" and a.get("ante"):
                 if a.get("memo", "0") != "0" or a.get("sigok") == "0" or a.get("seqok") == "0" or a.get("signer") != a.get("proposer"):
                     hits.append((i, "a relayer transaction passed although memo/signature/sequence/signer is wrong"))
+        if pid == "C19" and kind.startswith("hook.") and c not in ("n/a",) and not c.startswith("ok"):
+            hits.append((i, "block hook failed: %s" % impl[:100]))
         if kind == "a.blockstart":
             in_block_fault = False
         if kind == "a.end":
@@ -524,8 +527,10 @@ def mon_app(pid, run):
             scripted = st[0] in ("ERROR", "INVALID") or st[1] in ("ERROR", "INVALID")
             if c.startswith("halt"):
                 halted = True
-                if pid in ("C19", "C13", "C16") and not scripted:
+                if pid in ("C19", "C13") and not scripted:
                     hits.append((i, "block processing failed without an engine fault: %s" % impl[:120]))
+                if pid == "C16" and not scripted and re.search(r"too-many|too_many|delete_too_many", impl):
+                    hits.append((i, "relayer end-of-block logic failed: %s" % impl[:120]))
             else:
                 if pid == "C09" and scripted:
                     hits.append((i, "block committed although the engine answered %s/%s" % st))
@@ -597,8 +602,19 @@ def div_accepts(kinds):
 
 DIV_RULES["C02"] = div_c01
 DIV_RULES["C08"] = div_accepts({"a.process"})
-DIV_RULES["C10"] = div_accepts({"a.checktx", "tx.generic", "tx.hashes", "tx.pubkey", "tx.deposits", "tx.process", "tx.replace", "tx.finalize", "tx.approve", "tx.consolidate", "tx.newvoter", "tx.accept", "tx.ethblock"})
-DIV_RULES["C09"] = lambda w: w["op"].split(" ")[1] == "a.end" and crit(w["impl"]).startswith("ok") and crit(w["model"]).startswith("halt")
+DIV_RULES["C10"] = div_accepts({"a.process", "a.checktx", "tx.generic", "tx.hashes", "tx.pubkey", "tx.deposits", "tx.process", "tx.replace", "tx.finalize", "tx.approve", "tx.consolidate", "tx.newvoter", "tx.accept", "tx.ethblock"})
+def div_c09(w):
+    k = w["op"].split(" ")[1]
+    if k == "a.end":     # committed although the model (engine_fault_not_committed) does not commit
+        return crit(w["impl"]).startswith("ok") and crit(w["model"]).startswith("halt")
+    if k == "tx.ethblock":   # the head moved by a payload the model refuses (head_only_by_child)
+        return crit(w["impl"]) == "ok" and crit(w["model"]) != "ok"
+    if k == "dump.goat":
+        return crit(w["impl"]) != crit(w["model"])
+    return False
+
+
+DIV_RULES["C09"] = div_c09
 
 
 def div_c14(w):
@@ -627,6 +643,10 @@ def div_c06(w):
         return crit(w["impl"]) == "ok" and crit(w["model"]) != "ok"
     if k in ("btc.dequeue", "lock.dequeue"):
         return any(key == "txs" for key, _, _ in differing_items(w["impl"], w["model"]))
+    if k in ("a.process", "tx.ethblock"):
+        # a payload is accepted only if its leading system transactions are byte for byte the due ones and the header
+        # counts exactly them (verifyDequeue_exact)
+        return crit(w["impl"]) == "ok" and crit(w["model"]) != "ok"
     return False
 
 
@@ -657,3 +677,31 @@ def div_c15(w):
 
 
 DIV_RULES["C15"] = div_c15
+
+
+def div_c16(w):
+    """a voter registration the model refuses (newVoter_by_proof: current proposer, pending record, matching key
+    hash, valid ECDSA and BLS proofs over the sign-doc of this chain / epoch / registration) but the implementation
+    accepts is a voter joining without the proofs the property demands; an end-of-block failure the model
+    (endBlocker_never_fails) does not have is a failing history as well"""
+    k = w["op"].split(" ")[1]
+    if k == "tx.newvoter":
+        return crit(w["impl"]) == "ok" and crit(w["model"]) != "ok"
+    if k == "hook.rel.end":
+        return crit(w["impl"]) != "ok" and crit(w["model"]) == "ok"
+    return False
+
+
+DIV_RULES["C16"] = div_c16
+
+
+def div_c12(w):
+    """the pools after every block are pinned by updateRewardPool_exact / emission / distributeReward_spec: a state
+    dump whose reward pools differ from the model's is a block that moved another amount into distribution"""
+    if w["op"].split(" ")[1] != "dump.lock":
+        return False
+    return any(key == "pool" for key, _, _ in differing_items(w["impl"], w["model"]))
+
+
+DIV_RULES["C12"] = div_c12
+DIV_RULES["C04"] = lambda w: w["op"].split(" ")[1] in ("tx.finalize", "tx.deposits") and crit(w["impl"]) == "ok" and crit(w["model"]) != "ok"
